@@ -67,6 +67,88 @@ func (fr *frame) call(b *ssa.BasicBlock, site ssa.Instruction, c *ssa.CallCommon
 		atypes = append(atypes, a.Type())
 	}
 	name := calleeName(c)
+	h = fr.countCall(c, name, args, atypes, h)
+	if matched := fr.countMatches(c, name); len(matched) > 0 {
+		res, nh := fr.call2(b, site, c, name, sig, rt, args, atypes, reach, h)
+		for _, cn := range matched {
+			x.regKey("$res:"+cn, "Int")
+			if len(res.ts) > 0 {
+				nh = nh.set("$res:"+cn, asInt(res.ts[0], leaves(rt)[0].Sort))
+			}
+		}
+		return res, nh
+	}
+	return fr.call2(b, site, c, name, sig, rt, args, atypes, reach, h)
+}
+
+func asInt(t Term, s Sort) Term {
+	if s == SBool {
+		return app("b2i", t)
+	}
+	if s != SInt {
+		return "0"
+	}
+	return t
+}
+
+// countMatches: names of the ghost counters of the top contract that watch this callee.
+func (fr *frame) countMatches(c *ssa.CallCommon, name string) []string {
+	x := fr.x
+	if x.con == nil {
+		return nil
+	}
+	var out []string
+	for _, cs := range x.con.Counts {
+		pat := cs[1]
+		ok := name != "" && (name == pat || shortCallee(name) == pat)
+		if !ok && strings.HasPrefix(pat, "type:") && !c.IsInvoke() && c.StaticCallee() == nil {
+			if nt, isNamed := c.Value.Type().(*types.Named); isNamed && nt.Obj().Name() == pat[5:] {
+				ok = true
+			}
+		}
+		if !ok && strings.HasPrefix(pat, "field:") && !c.IsInvoke() {
+			if ld, isLoad := c.Value.(*ssa.UnOp); isLoad {
+				if fa, isFA := ld.X.(*ssa.FieldAddr); isFA {
+					st := derefType(fa.X.Type()).Underlying().(*types.Struct)
+					ok = st.Field(fa.Field).Name() == pat[6:]
+				}
+			}
+		}
+		if !ok && strings.HasPrefix(pat, "param:") && !c.IsInvoke() {
+			if p, isP := c.Value.(*ssa.Parameter); isP && p.Name() == pat[6:] {
+				ok = true
+			}
+			if p, isF := c.Value.(*ssa.FreeVar); isF && p.Name() == pat[6:] {
+				ok = true
+			}
+		}
+		if ok {
+			out = append(out, cs[0])
+		}
+	}
+	return out
+}
+
+// countCall bumps the ghost counters watching this callee and records the first leaf of each argument.
+func (fr *frame) countCall(c *ssa.CallCommon, name string, args []Val, atypes []types.Type, h Heap) Heap {
+	x := fr.x
+	for _, cn := range fr.countMatches(c, name) {
+		k := "$cnt:" + cn
+		x.regKey(k, "Int")
+		h = h.set(k, plus(x.hget(h, k), "1"))
+		for i, a := range args {
+			ak := fmt.Sprintf("$arg:%s:%d", cn, i)
+			x.regKey(ak, "Int")
+			if len(a.ts) > 0 && a.fp == nil {
+				h = h.set(ak, asInt(a.ts[0], leaves(atypes[i])[0].Sort))
+			}
+		}
+	}
+	return h
+}
+
+func (fr *frame) call2(b *ssa.BasicBlock, site ssa.Instruction, c *ssa.CallCommon, name string, sig *types.Signature, rt types.Type, args []Val, atypes []types.Type, reach Term, h Heap) (Val, Heap) {
+	x := fr.x
 	// builtins
 	if bi, ok := c.Value.(*ssa.Builtin); ok {
 		return fr.builtin(b, site, bi, c, args, atypes, rt, reach, h)
@@ -172,9 +254,11 @@ func (x *Enc) pureCall(key string, args []Val, atypes []types.Type, rt types.Typ
 			sorts = append(sorts, ls[j].Sort.String())
 		}
 	}
-	x.regKey(keyEpoch, "Int")
-	ts = append(ts, x.hget(h, keyEpoch))
-	sorts = append(sorts, "Int")
+	if !x.eng.isRigid(key) {
+		x.regKey(keyEpoch, "Int")
+		ts = append(ts, x.hget(h, keyEpoch))
+		sorts = append(sorts, "Int")
+	}
 	ls := leaves(rt)
 	out := Val{ts: make([]Term, len(ls))}
 	for i, l := range ls {
@@ -554,16 +638,23 @@ func (fr *frame) special(b *ssa.BasicBlock, site ssa.Instruction, name string, c
 		va := app("bytesval", app("select", x.hget(h, ek), a.ts[0]), a.ts[1], a.ts[2])
 		vb := app("bytesval", app("select", x.hget(h, ek), c2.ts[0]), c2.ts[1], c2.ts[2])
 		return Val{ts: []Term{and(eq(a.ts[2], c2.ts[2]), or(eq(a.ts[2], "0"), eq(va, vb)))}}, h, true
-	case "(*sync.Mutex).Lock", "(*sync.Mutex).Unlock", "(*sync.RWMutex).Lock", "(*sync.RWMutex).Unlock", "(*sync.RWMutex).RLock", "(*sync.RWMutex).RUnlock":
+	case "(*sync.Mutex).Lock", "(*sync.RWMutex).Lock", "(*sync.RWMutex).RLock":
+		// acquiring a lock is a point where writes of other goroutines become visible
+		return Val{}, fr.interfere(h), true
+	case "(*sync.Mutex).Unlock", "(*sync.RWMutex).Unlock", "(*sync.RWMutex).RUnlock":
 		return Val{}, h, true
+	case "sync/atomic.StoreInt64", "sync/atomic.StoreUint64", "sync/atomic.StoreInt32", "sync/atomic.StoreUint32":
+		nh := x.storeAt(h, args[0], atypes[1], args[1])
+		return Val{}, x.bumpEpoch(nh), true
 	case "(*sync/atomic.Int64).Load", "(*sync/atomic.Uint64).Load", "(*sync/atomic.Int32).Load", "(*sync/atomic.Uint32).Load", "(*sync/atomic.Bool).Load":
 		// shared word: arbitrary value of the type
 		res := x.freshVal("atomic", rt)
 		x.sc.assert(x.typeFacts(rt, res, h))
 		return res, h, true
 	case "sync/atomic.LoadInt64", "sync/atomic.LoadUint64", "sync/atomic.LoadInt32", "sync/atomic.LoadUint32":
-		res := x.freshVal("atomic", rt)
-		x.sc.assert(x.typeFacts(rt, res, h))
+		// sequential read of the word; interference by other goroutines is modelled at blocking points (shared)
+		res := x.loadAt(h, args[0], rt)
+		x.sc.assert(implies(reach, x.typeFacts(rt, res, h)))
 		return res, h, true
 	}
 	return Val{}, h, false
